@@ -866,6 +866,95 @@ fn run_plan(rep: &Report, tier: Tier) -> Value {
     })
 }
 
+
+// ---------------------------------------------------------------------------------------
+// wide part — offsets and totals beyond 31 and 32 bits (sparse files)
+// ---------------------------------------------------------------------------------------
+
+/// `extract_compact_segment` on sparse files whose first live span is already in place and is
+/// 2^31 … 2^32 + 2^31 bytes long (nothing has to be copied for it), followed by a gap and a small
+/// live span, followed by dead bytes. Judged on the file length, the reported saving, the bytes of
+/// the small span and the marked ends of the large one (the holes in between read as zeros and
+/// are not read back).
+fn wide_cases() -> Vec<(&'static str, u64, u64)> {
+    // (name, length of the first span, gap)
+    vec![
+        ("first span 2^31 - 4096", (1u64 << 31) - 4096, 4096),
+        ("first span 2^31", 1u64 << 31, 4096),
+        ("first span 2^32 - 4096", (1u64 << 32) - 4096, 4096),
+        ("first span 2^32", 1u64 << 32, 4096),
+        ("first span 2^32 + 2^31", (1u64 << 32) + (1u64 << 31), 8192),
+        ("first span 2^32 - 50 (the small span crosses 2^32)", (1u64 << 32) - 50, 4096),
+    ]
+}
+
+fn eval_wide(name: &str, big: u64, gap: u64) -> Option<Finding> {
+    let sc = Scratch::new("c18w");
+    let path = sc.path.join("segment");
+    let f = std::fs::OpenOptions::new().read(true).write(true).create(true).truncate(true).open(&path).expect("scratch file");
+    let small: Vec<u8> = (0..100u8).map(|i| i.wrapping_mul(7).wrapping_add(3)).collect();
+    let head: Vec<u8> = (0..64u8).map(|i| 0x80 | i).collect();
+    let tail: Vec<u8> = (0..64u8).map(|i| 0x40 | i).collect();
+    let small_at = big + gap;
+    let orig_len = small_at + 100 + 5000;
+    f.set_len(orig_len).expect("sparse file");
+    f.write_all_at(&head, 0).expect("write");
+    f.write_all_at(&tail, big - 64).expect("write");
+    f.write_all_at(&small, small_at).expect("write");
+    f.write_all_at(b"DEAD", small_at + 100 + 10).expect("write");
+    let mut spans = vec![DataSpan { offset: small_at, length: 100 }, DataSpan { offset: 0, length: big }];
+    let mut mover = CompactionFileMover::new(0);
+    let mut file = f;
+    let res = catch(|| extract_compact_segment(&mut file, &mut spans, &mut mover).map_err(|e| e.to_string()));
+    let mk = |kind: &str, detail: String| Some(Finding { kind: kind.to_string(), class: format!("{kind}/wide-offsets"), detail: format!("{name}, gap {gap}, then 100 live bytes, then 5000 dead bytes: {detail}") });
+    let saved = match res {
+        Err(m) => {
+            let site = panic_site(&m);
+            return Some(Finding { kind: "panic".into(), class: format!("panic/{site}"), detail: format!("{name}: extract_compact_segment panicked at {site}") });
+        }
+        Ok(Err(e)) => return mk("false-refusal", format!("two disjoint spans inside the file, yet the call returned Err({e})")),
+        Ok(Ok(s)) => s,
+    };
+    let len = file.metadata().expect("stat").len();
+    let want_len = big + 100;
+    if len != want_len {
+        return mk("wrong-content", format!("file length after compaction is {len}, the live spans hold {want_len} bytes"));
+    }
+    let mut buf = vec![0u8; 100];
+    file.read_exact_at(&mut buf, big).expect("read");
+    if buf != small {
+        return mk("wrong-content", format!("the 100 live bytes are not at offset {big} after compaction (found {})", show_bytes(&buf)));
+    }
+    let mut b64 = vec![0u8; 64];
+    file.read_exact_at(&mut b64, 0).expect("read");
+    let head_ok = b64 == head;
+    file.read_exact_at(&mut b64, big - 64).expect("read");
+    if !head_ok || b64 != tail {
+        return mk("wrong-content", "the first span, which was in place, has been overwritten at one of its ends".to_string());
+    }
+    if saved != orig_len - want_len {
+        return mk("wrong-bytes-saved", format!("returned {saved} bytes saved, the file shrank by {}", orig_len - want_len));
+    }
+    None
+}
+
+fn run_wide(rep: &Report) -> Value {
+    let cases = wide_cases();
+    let res = par_map(cases.len(), |i| eval_wide(cases[i].0, cases[i].1, cases[i].2));
+    rep.add_evaluations(cases.len() as u64);
+    rep.add_nontrivial_count(cases.len() as u64);
+    let mut reported = BTreeSet::new();
+    for (i, f) in res.into_iter().enumerate() {
+        rep.add_outcome(fnv64(format!("wide-{}", f.as_ref().map_or("ok", |f| f.kind.as_str())).as_bytes()));
+        if let Some(f) = f {
+            if reported.insert(f.class.clone()) {
+                rep.violation(&f.kind, &format!("wide/{}/min:{}", f.class, cases[i].0), json!({"part": "wide", "case": i}), &f.detail);
+            }
+        }
+    }
+    json!({"cases": cases.iter().map(|c| c.0).collect::<Vec<_>>(), "what": "sparse file, first live span in place, gap, 100 live bytes, 5000 dead bytes; length, saving, the small span and both ends of the large one are compared"})
+}
+
 // ---------------------------------------------------------------------------------------
 // entry points
 // ---------------------------------------------------------------------------------------
@@ -875,7 +964,7 @@ pub fn run(tier: Tier, seed: u64) -> i32 {
     rep.set_rule(
         "spans: one case = (grid unit, file length in units, buffer budget, ordered tuple of spans with end points on the grid); every tuple up to the stated length (repetitions, overlaps, zero-length spans included) and every larger set of disjoint non-empty spans in 3 input orders; non-trivial = data was moved or the set was refused \
          | mover: every (src, dest, len) on the grid per API; non-trivial = len > 0 and something has to move \
-         | plan: every population (state × write_position per segment) up to the segment bound × threshold × segment size; non-trivial = the plan contains at least one move. All cases are distinct by construction.",
+         | wide: six sparse-file geometries with offsets and totals around 2^31 and 2^32 | plan: every population (state × write_position per segment) up to the segment bound × threshold × segment size; non-trivial = the plan contains at least one move. All cases are distinct by construction.",
     );
     rep.assume("files live on tmpfs (/dev/shm); short reads/writes and I/O errors are not injected");
     rep.assume("spans lie inside the file (live data exists); a span beyond EOF is a caller error outside the statement");
@@ -886,9 +975,10 @@ pub fn run(tier: Tier, seed: u64) -> i32 {
     let m = run_mover(&rep, tier, seed);
     let t_mover = rep.elapsed_s();
     let p = run_plan(&rep, tier);
+    let wide = run_wide(&rep);
     rep.extra(
         "bounds",
-        json!({"spans": s, "mover": m, "plan": p, "wall_s": {"spans": (t_spans * 10.0).round() / 10.0, "mover": ((t_mover - t_spans) * 10.0).round() / 10.0, "plan": ((rep.elapsed_s() - t_mover) * 10.0).round() / 10.0}}),
+        json!({"spans": s, "mover": m, "plan": p, "wide": wide, "wall_s": {"spans": (t_spans * 10.0).round() / 10.0, "mover": ((t_mover - t_spans) * 10.0).round() / 10.0, "plan": ((rep.elapsed_s() - t_mover) * 10.0).round() / 10.0}}),
     );
     rep.finish()
 }
@@ -897,6 +987,12 @@ pub fn replay(w: &Value) -> i32 {
     let w = &w["witness"];
     let seed = w["seed"].as_u64().unwrap_or(0);
     let finding: Vec<Finding> = match w["part"].as_str() {
+        Some("wide") => {
+            let cases = wide_cases();
+            let i = (w["case"].as_u64().unwrap_or(0) as usize).min(cases.len() - 1);
+            println!("replaying extract_compact_segment on a sparse file: {}", cases[i].0);
+            eval_wide(cases[i].0, cases[i].1, cases[i].2).into_iter().collect()
+        }
         Some("spans") => {
             let c = SpanCase {
                 units: w["file_units"].as_u64().unwrap_or(0),
